@@ -781,9 +781,15 @@ func (g *gen) ctxset() TNode {
 	switch g.r.Rng.Intn(4) {
 	case 0:
 		n.Src = strconv.Itoa(g.r.Rng.Intn(60) - 10)
+		if g.r.Rng.Intn(4) == 0 {
+			n.OK = "ok1"
+		}
 	case 1:
 		q := pick(g.r, []string{`"`, `"`, `'`})                            // both quote characters make a literal
 		n.Src = q + pick(g.r, []string{"lit", "a b", "Q", "si", "x1"}) + q // (also texts that are names of variables)
+		if g.r.Rng.Intn(3) == 0 {
+			n.OK = "ok1" // a literal source sets the flag too
+		}
 	default:
 		p := g.anyPath()
 		// a ctx variable assigned from a counter / loop counter aliases its storage (known finding F-ctx-alias): not generated here
